@@ -43,6 +43,8 @@ type Expect struct {
 	Fair     bool   `json:"fair,omitempty"`   // uniform costs, no stalls, no PCT
 	Huge     bool   `json:"huge,omitempty"`   // source >= 1e9 elements
 	Term     string `json:"term,omitempty"`
+	Reuse    bool   `json:"reuse,omitempty"` // the list is consumed completely once before the short-circuit consumer sees it
+	N        int    `json:"n,omitempty"`     // its length
 }
 
 type Case struct {
@@ -571,6 +573,9 @@ func execC08(c *Case, sc *Script, o *Obs) {
 	parWindow := window + 4*w*int64(x.ParSt) + 8
 	perElem := int64(2000) * int64(x.S+1)
 	maxNeeded := (int64(x.Need) + parWindow + 64) * perElem
+	if x.Reuse {
+		maxNeeded += int64(max(x.N, 300)) * perElem // the first, complete pass
+	}
 	b := Budgets{MaxYields: 4_000_000 + 3*maxNeeded, GraceYields: 200_000, GraceTime: int64(time.Second)}
 	if !x.Drop {
 		b.AbortAbove = int64(x.Need) + parWindow + 3000
@@ -627,6 +632,29 @@ func execC08(c *Case, sc *Script, o *Obs) {
 		bound := int64(x.Need) + window
 		if par {
 			bound = int64(x.Need) + parWindow
+		}
+		if x.Reuse {
+			// the first pass legitimately evaluates every element once; what the second use may add
+			// is the demand of the short-circuit consumer
+			n0 := int64(0)
+			for i := 0; i < h.nProbe; i++ {
+				if h.probeS[i] == 0 {
+					n0++
+				}
+			}
+			listN := x.N
+			if c.Pipe != nil {
+				listN = c.Pipe.N // the shrinker may have shortened the list
+			}
+			if allowed := int64(listN) + bound + 1; n0 > allowed || h.probeOv {
+				d := fmt.Sprintf("%d closure evaluations on the first stage for a list of %d elements that was consumed completely once and then by %s (decisive element %d): at most %d allowed (mode %s)", n0, listN, x.Term, x.Need, allowed, mode)
+				if par && !x.Fair {
+					o.add(name, unboundedSig, d)
+				} else {
+					o.add(name, "C08:demand:reused-list:"+mode+":"+x.Term, d)
+				}
+			}
+			maxP = -1
 		}
 		mergeSig := "C08:demand-unbounded:merge:producers-keep-iterating"
 		sparseSig := "C08:demand-unbounded:parallel:stop-needs-next-item"
